@@ -15,7 +15,7 @@ Obligations: every monitor of the single-evaluation harness (no panic / internal
 progress, report consistency, up-to-date and only-necessary-work oracles as z3 validity queries) at every step.
 Honest note (DESIGN 7.19): the solver only decides a handful of value/presence atoms here; what matters is executing the
 real code at sizes where an internal limit would bite."""
-import time, itertools
+import time, itertools, os
 from . import rt, sym as F, explore as X, monitors as Mo, harness as H, chain, cex
 
 KINDS = ['Always', 'Output', 'Ephemeral']
@@ -48,6 +48,30 @@ def make_shape(shape, n, pattern):
         nodes.append(('Z', pattern[2 % len(pattern)]))
         for i in range(n - 2):
             edges.append(('Z', 'M%05d' % i))
+    elif shape == 'echain':
+        # an Output, a long run of Ephemerals, an Output: the on-demand logic has to look through the whole run
+        for i in range(n):
+            nodes.append(('J%05d' % i, 'Ephemeral' if 0 < i < n - 1 else (pattern[0] if pattern[0] != 'Ephemeral' else 'Output')))
+        for i in range(1, n):
+            edges.append(('J%05d' % i, 'J%05d' % (i - 1)))
+    elif shape == 'elayers':
+        # an Output, d fully connected layers of w Ephemerals (w^d paths), a layer of Outputs
+        w, d = n
+        nodes.append(('R', 'Output'))
+        for k in range(d):
+            for i in range(w):
+                nodes.append(('E%03d_%03d' % (k, i), 'Ephemeral'))
+        for i in range(w):
+            nodes.append(('Z%03d' % i, pattern[0] if pattern[0] != 'Ephemeral' else 'Output'))
+        for i in range(w):
+            edges.append(('E000_%03d' % i, 'R'))
+        for k in range(1, d):
+            for i in range(w):
+                for i2 in range(w):
+                    edges.append(('E%03d_%03d' % (k, i), 'E%03d_%03d' % (k - 1, i2)))
+        for i in range(w):
+            for i2 in range(w):
+                edges.append(('Z%03d' % i, 'E%03d_%03d' % (d - 1, i2)))
     elif shape == 'etail':
         # one producing job and below it a layered tail of Ephemerals nobody consumes (pruned at startup)
         w, d = n
@@ -200,9 +224,15 @@ def run_instance(mod, shape, n, pattern, deadline=None):
     uni = X.Universe(mod, nodes, edges, 'ident', {}, {}, name='%s_%s' % (shape, n))
     built = None
     nj = len(nodes)
-    for label, kw in (('first build', {}), ('first build, root failure', {'fail_first': True}),
-                      ('first build, abort after 1 start', {'abort_after': 1}),
-                      ('first build, abort midway', {'abort_after': max(1, nj // 2)})):
+    # above ~1000 jobs the first build (2 driver events per job, each with whole-graph invariant checks) dominates the cost
+    # without adding anything over the 600-job runs: the cascades that resolve inside ONE call are in the re-evaluation.  There
+    # the re-evaluation starts from the history a complete build leaves (H-BUILT), constructed directly.
+    direct = nj > int(os.environ.get('MIRSYM_SIZE_DIRECT', '1000'))
+    first_variants = () if direct else (('first build', {}), ('first build, root failure', {'fail_first': True}),
+                                        ('first build, abort after 1 start', {'abort_after': 1}),
+                                        ('first build, abort midway', {'abort_after': max(1, nj // 2)}))
+    stats['first_build_executed'] = not direct
+    for label, kw in first_variants:
         mons = monitors()
         ex = SeqExplorer(uni, mons, max_states=10 ** 9, step_budget=10 ** 6 + 100000 * nj, **kw)
         if z is not None:
@@ -218,15 +248,23 @@ def run_instance(mod, shape, n, pattern, deadline=None):
             ok = [s for s in ex.finals if s.result == 'ok' and s.hist is not None and not s.dv.failed]
             if ok:
                 built = (ex, ok[0])
-    if built is None:
+    if direct:
+        u2 = H.built_universe(mod, nodes, edges, 'ident', name='%s_%s+built' % (shape, n))
+        ex1 = st1 = None
+    elif built is None:
         if not viols:
             viols.append({'prop': 'C19', 'orig_prop': 'C05', 'what': '[%s %s] first build did not complete' % (shape, n), 'depth': 0, 'pc': [],
                           'scenario': None})
         stats['solver'] = z.stats.to_json()
         return stats, viols
-    ex1, st1 = built
-    # ---- evaluation 2: re-evaluation from the returned history
-    u2 = chain.followup_universe(ex1, st1)
+    if not direct:
+        ex1, st1 = built
+        # ---- evaluation 2: re-evaluation from the returned history
+        u2 = chain.followup_universe(ex1, st1)
+    else:
+        for j, k in nodes:
+            if k == 'Output':
+                u2.present_spec[j] = True
     fo = first_of(u2, 'Output')
     lo = last_of(u2, 'Output')
     for j in set(x for x in (fo, lo) if x is not None):
@@ -235,15 +273,20 @@ def run_instance(mod, shape, n, pattern, deadline=None):
     fresh = set(x for x in (fa, fo) if x is not None)
 
     def output_term(ex, st, j):
-        return ('o2', j) if j in fresh else ('o', j)
+        if j in fresh:
+            return ('o2', j)
+        # every other job that is re-executed reproduces what it produced in the build (the same term as its record)
+        return ('h', j) if direct else ('o', j)
     u2.output_term = output_term
     for label, kw in (('re-evaluation', {}), ('re-evaluation, root failure', {'fail_first': True}),
                       ('re-evaluation, abort after 1 start', {'abort_after': 1})):
         mons = monitors()
         ex = SeqExplorer(u2, mons, max_states=10 ** 9, step_budget=10 ** 6 + 100000 * nj, **kw)
-        ex.z = z
+        if z is not None:
+            ex.z = z
+        z = ex.z
         ex.run(deadline=deadline)
         account(ex, mons)
-        collect(ex, label, prev=(ex1, st1))
+        collect(ex, label, prev=(ex1, st1) if ex1 is not None else None)
     stats['solver'] = z.stats.to_json()
     return stats, viols
